@@ -275,6 +275,21 @@ func tIte(c, a, b T) T {
 	return app("ite", c, a, b)
 }
 func tSel(m, i T) T {
+	if strings.HasPrefix(m, "((as const ") {
+		// constant array: the element is the default value
+		depth := 0
+		for k := len("((as const "); k < len(m); k++ {
+			if m[k] == '(' {
+				depth++
+			}
+			if m[k] == ')' {
+				depth--
+				if depth == 0 {
+					return strings.TrimSpace(m[k+2 : len(m)-1])
+				}
+			}
+		}
+	}
 	// fold select over store chains with numeric indices
 	if ix, ok := isNum(i); ok {
 		cur := m
@@ -293,7 +308,7 @@ func tSel(m, i T) T {
 			cur = parts[1]
 		}
 		if cur != m {
-			return app("select", cur, i)
+			return tSel(cur, i)
 		}
 	}
 	return app("select", m, i)
